@@ -309,6 +309,27 @@ def alphas(case):
     return out
 
 
+def f_and_X(case, trial=0, theta=None):
+    """(f_j, [X_i of the selected events of dataset j], [(N_j, nSel_j)]) at theta for pseudo-data trial `trial` — from the
+    case alone (what MultiDatasetTCLLHRatio.evaluate hands to the single-dataset llh ratios)"""
+    loc = local_values(case, theta)
+    W = np.array(case['W'], dtype=np.float64)
+    a = np.array([W * yield_tables(case, j, loc)[0] for j in range(len(case['ds']))])
+    f = a.sum(axis=1) / a.sum()
+    Xs, sizes = [], []
+    for j, d in enumerate(case['ds']):
+        rA, rB, _, _ = leaf_tables(case, j, loc)
+        m = mask_of(case, j, trial)
+        sel = m.any(axis=0)
+        R = ((rA * rB * m) * a[j][:, None]).sum(axis=0)
+        if a[j].sum() > 0:
+            R = R / a[j].sum()
+        N = trial_n_events(case, j, trial)
+        Xs.append((R[sel] - 1.0) / N)
+        sizes.append((int(N), int(sel.sum())))
+    return f, Xs, sizes
+
+
 def all_stable(case, opa, margin=1e-6):
     """every selected event of every dataset is in the stable regime at theta (computed from the case alone)"""
     ns = case['theta'][ns_fit_index(case)]
